@@ -70,14 +70,17 @@ def parseHeadTok (t : String) : Option Req.C07.Interim.Head :=
   if t.endsWith "e" then (t.dropEnd 1).toString.toNat?.map fun c => { code := c, endStream := true }
   else t.toNat?.map fun c => { code := c }
 
-/-- `c07interim <1|2|3> <code[e],code[e],… | ->` → outcome of the interim loop -/
+/-- `c07interim <1|2|3> <code[e],code[e],… | ->` → `final <code> <#interim>` / `error` (too many, 1xx with END_STREAM, or no final head) -/
 def laneInterim : List String → String
   | [p, hs] =>
     let proto : Option Req.C07.Interim.Proto :=
       if p == "1" then some .h1 else if p == "2" then some .h2 else if p == "3" then some .h3 else none
     let heads := if hs == "-" then some [] else (hs.splitOn ",").mapM parseHeadTok
     match proto, heads with
-    | some pr, some l => Req.C07.Interim.render (Req.C07.Interim.run pr l)
+    | some pr, some l =>
+      match Req.C07.Interim.run pr l with
+      | .final c k => "final " ++ toString c ++ " " ++ toString k
+      | _ => "error"
     | _, _ => "bad-op"
   | _ => "bad-op"
 
